@@ -114,7 +114,7 @@ pub fn scenario(sub: u64) -> Option<(String, usize, usize)> {
             last_progress = Instant::now();
         }
         let done = got.iter().zip(expect.iter()).all(|(g, e)| g.len() >= *e);
-        if (done && last_progress.elapsed() > Duration::from_millis(60)) || last_progress.elapsed() > Duration::from_millis(1500) {
+        if (done && last_progress.elapsed() > Duration::from_millis(60)) || last_progress.elapsed() > Duration::from_millis(4000) {
             break;
         }
         std::thread::sleep(Duration::from_millis(3));
